@@ -41,10 +41,19 @@ def run(case):
     ns['prop'] = property(lambda self: 42)
     Base = type('Plain', (), ns)
     K = Base
-    for i in case['invs']:
-        K = deal.inv(mk_inv(i))(K)
-    if case.get('subclass'):
+    split = case.get('split')
+    if case.get('subclass') and split is not None:
+        # a subclass of an invariant class that is decorated itself: it carries the inherited invariants and its own
+        for i in case['invs'][:split]:
+            K = deal.inv(mk_inv(i))(K)
         K = type('Sub', (K,), {})
+        for i in case['invs'][split:]:
+            K = deal.inv(mk_inv(i))(K)
+    else:
+        for i in case['invs']:
+            K = deal.inv(mk_inv(i))(K)
+        if case.get('subclass'):
+            K = type('Sub', (K,), {})
     out = []
     try:
         obj = K()
